@@ -200,11 +200,28 @@ def run_case(ck, desc):
     cols = {k: np.asarray(tab[k], dtype=float) for k in tables.MP_COLS}
     params = RelPermParams(*desc["relperm"])
     df_kr = relative_permeabilities_twophase(params, Sw)
+    full_tab = pd.DataFrame(cols)
+    if int(phi * 1e4) % 2 == 0:
+        # a relative-permeability table with MOBILE water (built with the public three-phase function,
+        # residual water below the actual saturation), and a PVT table that carries the columns a lab
+        # merge brings along (gas dissolved in water, water density, ...): the documented mobility has
+        # three terms and none of them reads those columns
+        from bluebonnet.flow import relative_permeabilities
+
+        so = np.linspace(0.0, 1 - Sw, 50)
+        rec = np.zeros(50, dtype=[("So", "f8"), ("Sw", "f8"), ("Sg", "f8")])
+        rec["So"], rec["Sw"], rec["Sg"] = so, Sw, 1 - Sw - so
+        p9 = list(desc["relperm"])
+        p9[4] = max(0.0, Sw - 0.12)
+        kr3 = relative_permeabilities(rec, RelPermParams(*p9))
+        df_kr = pd.DataFrame({"So": so, "Sw": np.full(50, Sw), "Sg": 1 - Sw - so, "kro": kr3["kro"], "krw": kr3["krw"], "krg": kr3["krg"]})
+        full_tab = full_tab.assign(Rsw=4.0 + 0.002 * P, rho_w=62.4 + 0.0003 * P, temperature=200.0, Bw_lab=cols["Bw"] * 1.01)
+        ck.count("tables_with_mobile_water_and_extra_lab_columns")
     refd = dict(zip(names, dens))
     ki = max(2, len(P) - 1 - int(desc["So_frac"][0] * (len(P) // 3)))
     with warnings.catch_warnings(), np.errstate(all="ignore"):
         warnings.simplefilter("ignore")
-        obj = fp.FlowPropertiesTwoPhase.from_table(pd.DataFrame(cols), df_kr, refd, phi, Sw, float(P[ki]))
+        obj = fp.FlowPropertiesTwoPhase.from_table(full_tab, df_kr, refd, phi, Sw, float(P[ki]))
     pvt_lib, kr_lib = obj.pvt, obj.kr
     own = {k: (lambda x, k=k: np.interp(x, P, cols[k])) for k in ("Bo", "Bg", "Bw", "Rs", "Rv", "mu_o", "mu_g", "mu_w")}
     # evaluation pressures: inside the table, >= 2 psi away from every node
